@@ -134,6 +134,9 @@ type Cluster struct {
 	// ReplCutFrom: the node cannot reach its peers for replication (as a leader), while
 	// the coordinator and the clients still reach it.
 	ReplCutFrom map[string]bool
+	// DropBecomeLeaderResp: that many BecomeLeader calls are executed by the node but their
+	// response is lost on the way back (the coordinator sees an error)
+	DropBecomeLeaderResp int
 }
 
 // CutReplicationFrom severs the outgoing replication of a node.
@@ -376,6 +379,11 @@ func (r *CoordRpc) BecomeLeader(ctx context.Context, node model.Server, req *pro
 	resp, err := call(r.c, rctx, node.Internal, "BecomeLeader", func(n *Node) (*proto.BecomeLeaderResponse, error) {
 		return n.Srv.BecomeLeader(rctx, req.CloneVT())
 	})
+	if err == nil && r.c.DropBecomeLeaderResp > 0 {
+		r.c.DropBecomeLeaderResp--
+		r.c.log(Event{Kind: "lost:BecomeLeader", Node: node.Internal, Term: req.Term, SentStep: sent})
+		return nil, ErrUnavailable
+	}
 	e := Event{Kind: "resp:BecomeLeader", Node: node.Internal, Term: req.Term, Err: errStr(err), SentStep: sent}
 	r.c.log(e)
 	if err == nil {
